@@ -81,6 +81,7 @@ func Run(tier string) {
 		run.Distinct("scrypt+" + name)
 	}
 	pluginFailures(run, w)
+	largeHeaderRefusals(run, w)
 	randFaults(run, w)
 	if run.Thorough() {
 		run.Exhaustive()
@@ -202,6 +203,59 @@ func pluginFailures(run *vk.Run, w *world.World) {
 				run.Violation("C11:failed-wrap-accepted:"+sig, fmt.Sprintf("the plugin of a recipient reported an error (script %v) and Encrypt went ahead", script), rp)
 			} else if cw.Bytes != 0 || cw.Calls != 0 {
 				run.Violation("C11:bytes-written-on-refusal:"+sig, fmt.Sprintf("refusal (%v) after %d bytes reached the destination", eerr, cw.Bytes), rp)
+			}
+			run.Distinct(sig)
+		}
+	}
+}
+
+// bigStanza is a recipient whose stanza body has n bytes (a plugin may carry that much) and which declares no labels.
+type bigStanza struct{ n int }
+
+func (b bigStanza) Wrap(fileKey []byte) ([]*age.Stanza, error) {
+	return []*age.Stanza{{Type: "big", Args: []string{"a"}, Body: bytes.Repeat([]byte{0x5a}, b.n)}}, nil
+}
+
+// failingRecipient cannot wrap.
+type failingRecipient struct{}
+
+func (failingRecipient) Wrap([]byte) ([]*age.Stanza, error) { return nil, errors.New("cannot wrap") }
+
+// largeHeaderRefusals: "not a single byte" holds however much header was already assembled when the list is refused:
+// the refusing recipient (incompatible labels, or a wrap failure) comes after 1..100 native recipients or after a stanza
+// with a body of up to 70000 bytes - more than any internal buffer that could have been flushed by then.
+func largeHeaderRefusals(run *vk.Run, w *world.World) {
+	bad := map[string]func() age.Recipient{
+		"labels": func() age.Recipient { return world.LabelledRecipient{Present: true, Labels: []string{"postquantum"}} },
+		"fails":  func() age.Recipient { return failingRecipient{} },
+	}
+	for name, mk := range bad {
+		for _, k := range []int{1, 41, 42, 43, 90, 200} {
+			var rs []age.Recipient
+			for i := 0; i < k; i++ {
+				rs = append(rs, w.Recipient("x1"))
+			}
+			rs = append(rs, mk())
+			cw := &coregen.CountingWriter{}
+			_, err := age.Encrypt(cw, rs...)
+			run.Eval(1)
+			sig := fmt.Sprintf("large-header/%s/after-%d-native", name, k)
+			if err == nil {
+				run.Violation("C11:incompatible-list-accepted:"+sig, "Encrypt went ahead", nil)
+			} else if cw.Bytes != 0 || cw.Calls != 0 {
+				run.Violation("C11:bytes-written-on-refusal:"+sig, fmt.Sprintf("refusal (%v) after %d native recipients left %d bytes in the destination", err, k, cw.Bytes), map[string]interface{}{"check": "C11.largeheader", "bad": name, "native": k})
+			}
+			run.Distinct(sig)
+		}
+		for _, n := range []int{16, 3000, 4096, 5000, 70000} {
+			cw := &coregen.CountingWriter{}
+			_, err := age.Encrypt(cw, bigStanza{n}, mk())
+			run.Eval(1)
+			sig := fmt.Sprintf("large-header/%s/after-%d-byte-body", name, n)
+			if err == nil {
+				run.Violation("C11:incompatible-list-accepted:"+sig, "Encrypt went ahead", nil)
+			} else if cw.Bytes != 0 || cw.Calls != 0 {
+				run.Violation("C11:bytes-written-on-refusal:"+sig, fmt.Sprintf("refusal (%v) after a %d-byte stanza body left %d bytes in the destination", err, n, cw.Bytes), map[string]interface{}{"check": "C11.largeheader", "bad": name, "body": n})
 			}
 			run.Distinct(sig)
 		}
